@@ -61,11 +61,17 @@ pub fn roundtrip<T: Serialize + DeserializeOwned>(w: &W) {
         assert!(out[i] == w.buf[i], "the core's encoding is byte for byte the schema's encoding of the same value");
         i += 1;
     }
+    // the harness ends here: skipping the drop glue of the decoded value (enums of strings are unions
+    // for CBMC; their drop glue dominated symbolic execution) removes nothing that is asserted on
+    std::mem::forget(out);
+    std::mem::forget(value);
 }
 
 pub fn rejects<T: DeserializeOwned>(w: &W) {
     let r: Result<T, _> = options().deserialize(&w.buf[..w.n]);
-    assert!(r.is_err(), "an encoding the schema does not define is rejected");
+    let rejected = r.is_err();
+    std::mem::forget(r);
+    assert!(rejected, "an encoding the schema does not define is rejected");
 }
 
 #[cfg(kani)]
